@@ -52,8 +52,13 @@ func matchKnown(kfs []KnownFinding, prop string, v Violation) *KnownFinding {
 		if k.Status != "open" || k.Property != prop || k.Kind != v.Kind {
 			continue
 		}
-		if k.Signature != "" && k.Signature == v.Signature {
-			return k
+		// an entry with a signature is matched by the signature alone (its site is documentation);
+		// only entries without one are matched by site
+		if k.Signature != "" {
+			if k.Signature == v.Signature {
+				return k
+			}
+			continue
 		}
 		if k.Site != "" && k.Site == v.Site {
 			return k
